@@ -80,4 +80,18 @@ structure WF (st : Storage) : Prop where
 
 end Storage
 
+/-- A `CapturedSpan` / `CapturedEvent` handle (lib.rs:82-88, 216-226): the storage it borrows
+    from — compared by pointer identity — and its arena id. -/
+structure ItemRef where
+  storage : Nat
+  id : Nat
+  deriving DecidableEq, Repr, Inhabited
+
+/-- `PartialEq` (lib.rs:177-181, 348-352). -/
+def ItemRef.beq (a b : ItemRef) : Bool := a.storage == b.storage && a.id == b.id
+
+/-- `PartialOrd` (lib.rs:185-193, 356-364). -/
+def ItemRef.partialCmp (a b : ItemRef) : Option Ordering :=
+  if a.storage == b.storage then some (compare a.id b.id) else none
+
 end TT
